@@ -33,7 +33,12 @@ Best(e) == SetMax({Cls(-k[2]) : k \in Kids(e)})
 Checks(e) ==
   IF "panic" \in DOMAIN e \/ \E k \in Kids(e) : k[2] = PanicCode THEN [C05_search_survives |-> FALSE]
   ELSE [C05_value_is_max_over_the_moves |-> Cls(e.v) = Best(e),
-        C05_returned_move_attains_it    |-> \E k \in Kids(e) : k[1] = e.move /\ Cls(-k[2]) = Best(e)]
+        C05_returned_move_attains_it    |-> \E k \in Kids(e) : k[1] = e.move /\ Cls(-k[2]) = Best(e),
+        \* the same root through the public entry point find_best_move (iterative deepening from depth 1)
+        C05_public_search_survives |-> "pub" \in DOMAIN e => e.pub[1] # PanicCode,
+        C05_public_search_value_is_max_over_the_moves |-> ("pub" \in DOMAIN e /\ e.pub[1] # PanicCode) => Cls(e.pub[1]) = Best(e),
+        C05_public_search_move_attains_it |-> ("pub" \in DOMAIN e /\ e.pub[1] # PanicCode) =>
+                                                 \E k \in Kids(e) : k[1] = e.pub[2] /\ Cls(-k[2]) = Best(e)]
 
 \* C06 on arbitrary positions: after an interruption at the j-th poll, a completed fixed-depth search on the same
 \* Searcher reports what a fresh engine reports, and the game-history stack is as it was (empty here)
